@@ -123,3 +123,418 @@ Definition check_window (keys : sortkeys) (off lim : option nat) (base r : list 
           sortedb keys s && rows_eqb r (window off lim s)
       end
   end.
+
+(* ================================================================================== *)
+(* 2. Names, conditions, select-list items                                             *)
+
+Definition obind {A B} (o : option A) (f : A -> option B) : option B :=
+  match o with Some a => f a | None => None end.
+Definition is_some {A} (o : option A) : bool := match o with Some _ => true | None => false end.
+
+Fixpoint all_some {A} (l : list (option A)) : option (list A) :=
+  match l with
+  | [] => Some []
+  | None :: _ => None
+  | Some a :: r => match all_some r with Some r' => Some (a :: r') | None => None end
+  end.
+
+(* a reference names a field when the column names agree and the qualifier, if any, is the
+   field's table id (the alias when the table has one, the table name otherwise) *)
+Definition ref_names (c : colref) (f : field) : bool :=
+  String.eqb (snd f) (cr_name c) && (String.eqb (cr_qual c) "" || String.eqb (fst f) (cr_qual c)).
+
+Fixpoint positions_from {A} (p : A -> bool) (l : list A) (i : nat) : list nat :=
+  match l with
+  | [] => []
+  | x :: r => if p x then i :: positions_from p r (S i) else positions_from p r (S i)
+  end.
+
+(* a reference is meaningful only when exactly one field answers to it *)
+Definition resolve (c : colref) (fs : list field) : option nat :=
+  match positions_from (ref_names c) fs 0 with
+  | [i] => Some i
+  | _ => None
+  end.
+
+Definition sem_operand (x : vexpr) (fs : list field) (r : row) : option value :=
+  match x with
+  | XLit v => Some v
+  | XCol c => obind (resolve c fs) (nth_error r)
+  end.
+
+(* comparisons are defined on two non-NULL values of the same type; <, <=, >, >= only on
+   integers and strings *)
+Definition sem_cmp (op : compop) (a b : value) : option bool :=
+  match a, b with
+  | VInt _, VInt _ | VStr _, VStr _ =>
+      Some (match op, vcmp a b with
+            | CEq, Eq | CNeq, Lt | CNeq, Gt | CGt, Gt | CLt, Lt
+            | CLte, Lt | CLte, Eq | CGte, Gt | CGte, Eq => true
+            | _, _ => false
+            end)
+  | VBool x, VBool y =>
+      match op with
+      | CEq => Some (Bool.eqb x y)
+      | CNeq => Some (negb (Bool.eqb x y))
+      | _ => None
+      end
+  | _, _ => None
+  end.
+
+Definition sem_pred (l : vexpr) (op : compop) (r : vexpr) (fs : list field) (rw : row) : option bool :=
+  obind (sem_operand l fs rw) (fun a => obind (sem_operand r fs rw) (fun b => sem_cmp op a b)).
+
+(* truth value of a condition on one row: AND binds tighter than OR by the shape of the tree *)
+Fixpoint sem_cond (e : expr) (fs : list field) (rw : row) : option bool :=
+  match e with
+  | EVal (XLit (VBool b)) => Some b
+  | EVal _ => None
+  | EPred l op r => sem_pred l op r fs rw
+  | EAnd (l, op, r) rhs =>
+      obind (sem_pred l op r fs rw) (fun a => obind (sem_cond rhs fs rw) (fun b => Some (a && b)))
+  | EOr l r =>
+      obind (sem_cond l fs rw) (fun a => obind (sem_cond r fs rw) (fun b => Some (a || b)))
+  end.
+
+Definition holds (e : expr) (fs : list field) (rw : row) : bool :=
+  match sem_cond e fs rw with Some true => true | _ => false end.
+
+(* rows satisfying WHERE, in their original order; None when the condition is ill-typed on
+   some row *)
+Definition sem_filter (w : option expr) (fs : list field) (rows : list row) : option (list row) :=
+  match w with
+  | None => Some rows
+  | Some e =>
+      if forallb (fun rw => is_some (sem_cond e fs rw)) rows then Some (filter (holds e fs) rows)
+      else None
+  end.
+
+(* value of one non-aggregate select-list item on one row *)
+Definition sem_item (p : selprim) (fs : list field) (rw : row) : option value :=
+  match p with
+  | SPExpr (EVal (XCol c)) => obind (resolve c fs) (nth_error rw)
+  | SPExpr (EVal (XLit VNull)) => None
+  | SPExpr (EVal (XLit v)) => Some v
+  | SPExpr e => option_map VBool (sem_cond e fs rw)
+  | _ => None
+  end.
+
+Definition is_star (sl : list derivedcol) : bool :=
+  match sl with
+  | [d] => match dc_prim d with SPStar => true | _ => false end
+  | _ => false
+  end.
+
+Definition sem_project_row (sl : list derivedcol) (fs : list field) (rw : row) : option row :=
+  if is_star sl then Some rw else all_some (map (fun d => sem_item (dc_prim d) fs rw) sl).
+
+Definition sem_project (sl : list derivedcol) (fs : list field) (rows : list row) : option (list row) :=
+  all_some (map (sem_project_row sl fs) rows).
+
+(* name of an output column: the alias if there is one; otherwise the column's own name (with
+   its table id) for a plain column, "count(..)" / "avg(..)" / "?" for computed columns *)
+Definition col_text (c : colref) : string :=
+  if String.eqb (cr_qual c) "" then cr_name c else (cr_qual c ++ "." ++ cr_name c)%string.
+
+Definition out_field (d : derivedcol) (fs : list field) : option field :=
+  let named (f : field) := if String.eqb (dc_as d) "" then f else (fst f, dc_as d) in
+  match dc_prim d with
+  | SPExpr (EVal (XCol c)) => option_map named (obind (resolve c fs) (nth_error fs))
+  | SPExpr _ => Some (named (""%string, "?"%string))
+  | SPCount None => Some (named (""%string, "count(*)"%string))
+  | SPCount (Some c) => Some (named (""%string, ("count(" ++ col_text c ++ ")")%string))
+  | SPAvg c => Some (named (""%string, ("avg(" ++ col_text c ++ ")")%string))
+  | SPStar => None
+  end.
+
+Definition out_header (sl : list derivedcol) (fs : list field) : option (list field) :=
+  if is_star sl then Some fs else all_some (map (fun d => out_field d fs) sl).
+
+Definition sem_sortkeys (ssl : list sortspec) (hdr : list field) : option sortkeys :=
+  all_some (map (fun s => option_map (fun i => (i, ss_dir s)) (resolve (ss_key s) hdr)) ssl).
+
+(* every sort column holds values of one type (NULLs aside): true of every real table *)
+Definition same_tag (a b : value) : bool :=
+  match a, b with
+  | VNull, _ | _, VNull => true
+  | VInt _, VInt _ | VStr _, VStr _ | VBool _, VBool _ => true
+  | _, _ => false
+  end.
+Definition col_homog (i : nat) (rows : list row) : bool :=
+  forallb (fun r1 => forallb (fun r2 => same_tag (nth i r1 VNull) (nth i r2 VNull)) rows) rows.
+Definition keys_homog (keys : sortkeys) (rows : list row) : bool :=
+  forallb (fun k => col_homog (fst k) rows) keys.
+
+Definition opt_nat (active : bool) (z : Z) : option nat := if active then Some (Z.to_nat z) else None.
+Definition q_offset (q : select_stmt) : option nat := opt_nat (sel_offset_active q) (sel_offset q).
+Definition q_limit (q : select_stmt) : option nat := opt_nat (sel_limit_active q) (sel_limit q).
+Definition window_ok (q : select_stmt) : bool :=
+  (negb (sel_offset_active q) || (0 <=? sel_offset q)%Z) && (negb (sel_limit_active q) || (0 <=? sel_limit q)%Z).
+
+(* ================================================================================== *)
+(* 3. C05: single-table SELECT                                                         *)
+
+Definition table_fields (name : string) (alias : option string) (cols : list string) : list field :=
+  map (fun c => (match alias with Some a => a | None => name end, c)) cols.
+
+Definition no_aggregate (q : select_stmt) : bool :=
+  negb (existsb (fun d => match dc_prim d with SPCount _ | SPAvg _ => true | _ => false end) (sel_list q))
+  && match sel_group q with [] => true | _ => false end.
+
+(* header, rows before ORDER BY (= filtered, projected, in table order), sort keys *)
+Definition sem_single (q : select_stmt) (d : db) : option (list field * list row * sortkeys) :=
+  match sel_from q with
+  | [TRName name alias] =>
+      obind (fetch d name) (fun '(cols, rows) =>
+      let fs := table_fields name alias cols in
+      if forallb (fun rw => Nat.eqb (List.length rw) (List.length cols)) rows then
+        obind (sem_filter (sel_where q) fs rows) (fun kept =>
+        obind (sem_project (sel_list q) fs kept) (fun base =>
+        obind (out_header (sel_list q) fs) (fun hdr =>
+        obind (sem_sortkeys (sel_sort q) hdr) (fun keys =>
+        if keys_homog keys base then Some (hdr, base, keys) else None))))
+      else None)
+  | _ => None
+  end.
+
+Definition nonempty_list (q : select_stmt) : bool :=
+  match sel_list q with [] => false | _ => true end.
+
+Definition well_typed (q : select_stmt) (d : db) : bool :=
+  nonempty_list q && no_aggregate q && window_ok q && is_some (sem_single q d).
+
+Definition SelectSpec (q : select_stmt) (d : db) (res : list field * list row) : Prop :=
+  exists hdr base keys,
+    sem_single q d = Some (hdr, base, keys) /\
+    fst res = hdr /\
+    OrderedWindow keys (q_offset q) (q_limit q) base (snd res).
+
+Definition field_eqb (a b : field) : bool :=
+  String.eqb (fst a) (fst b) && String.eqb (snd a) (snd b).
+Definition fields_eqb : list field -> list field -> bool := list_eqb field_eqb.
+
+Definition check_select (q : select_stmt) (d : db) (res : list field * list row) : bool :=
+  match sem_single q d with
+  | Some (hdr, base, keys) =>
+      fields_eqb (fst res) hdr && check_window keys (q_offset q) (q_limit q) base (snd res)
+  | None => false
+  end.
+
+(* ================================================================================== *)
+(* 4. C06: joins                                                                       *)
+
+(* [l ++ r | l <- L, r <- R, c (l ++ r)] *)
+Definition matching (c : row -> bool) (L R : list row) : list row :=
+  flat_map (fun l => filter c (map (fun r => l ++ r) R)) L.
+
+Definition unmatched_left (c : row -> bool) (L R : list row) (nR : nat) : list row :=
+  map (fun l => l ++ nulls nR) (filter (fun l => forallb (fun r => negb (c (l ++ r))) R) L).
+
+Definition unmatched_right (c : row -> bool) (L R : list row) (nL : nat) : list row :=
+  map (fun r => nulls nL ++ r) (filter (fun r => forallb (fun l => negb (c (l ++ r))) L) R).
+
+(* fields and rows (as a multiset, listed in some order) of a join tree; None when a table is
+   missing, a row has the wrong width, or an ON condition is ill-typed on some pair of rows *)
+Fixpoint join_sem (d : db) (t : tableref) : option (list field * list row) :=
+  match t with
+  | TRName name alias =>
+      obind (fetch d name) (fun '(cols, rows) =>
+      if forallb (fun rw => Nat.eqb (List.length rw) (List.length cols)) rows
+      then Some (table_fields name alias cols, rows) else None)
+  | TRJoin l jt r cond =>
+      obind (join_sem d l) (fun '(lf, L) =>
+      obind (join_sem d r) (fun '(rf, R) =>
+      let fs := lf ++ rf in
+      if forallb (fun lr => forallb (fun rr => is_some (sem_cond cond fs (lr ++ rr))) R) L then
+        let c := holds cond fs in
+        match jt with
+        | JInner => Some (fs, matching c L R)
+        | JLeft => Some (fs, matching c L R ++ unmatched_left c L R (List.length rf))
+        | JRight => Some (fs, matching c L R ++ unmatched_right c L R (List.length lf))
+        | JFull => None
+        end
+      else None))
+  end.
+
+Definition join_tree_ok (j : tableref) (d : db) : bool := is_some (join_sem d j).
+
+Definition JoinSpec (j : tableref) (d : db) (res : list field * list row) : Prop :=
+  exists fs base, join_sem d j = Some (fs, base) /\ fst res = fs /\ Permutation (snd res) base.
+
+Definition check_join (j : tableref) (d : db) (res : list field * list row) : bool :=
+  match join_sem d j with
+  | Some (fs, base) => fields_eqb (fst res) fs && perm_b (snd res) base
+  | None => false
+  end.
+
+(* ================================================================================== *)
+(* 5. C07: COUNT / AVG / GROUP BY                                                      *)
+
+(* a GROUP BY column denotes a plain select-list column: same spelling, or its alias, or its
+   bare column name *)
+Definition denotes (g : colref) (d : derivedcol) : bool :=
+  match dc_prim d with
+  | SPExpr (EVal (XCol c)) =>
+      (String.eqb (cr_qual c) (cr_qual g) && String.eqb (cr_name c) (cr_name g))
+      || String.eqb (dc_as d) (cr_name g)
+      || (String.eqb (cr_qual g) "" && String.eqb (cr_name c) (cr_name g))
+  | _ => false
+  end.
+
+Definition is_plain (d : derivedcol) : bool :=
+  match dc_prim d with SPExpr (EVal (XCol _)) => true | _ => false end.
+
+(* an aggregate query in the sense of C07: every select item is a plain column, COUNT or AVG;
+   every plain column is denoted by some GROUP BY column and every GROUP BY column denotes
+   exactly one plain column (so: grouping columns = plain columns of the select list) *)
+Definition agg_shape (sl : list derivedcol) (gb : list colref) : bool :=
+  forallb (fun d => match dc_prim d with
+                    | SPExpr (EVal (XCol _)) => existsb (fun g => denotes g d) gb
+                    | SPCount _ | SPAvg _ => true
+                    | _ => false
+                    end) sl
+  && forallb (fun g => Nat.eqb (List.length (filter (denotes g) sl)) 1) gb
+  && negb (match sl with [] => true | _ => false end).
+
+(* source column (position in fs) of every select item that has one *)
+Definition item_col (d : derivedcol) (fs : list field) : option (option nat) :=
+  match dc_prim d with
+  | SPExpr (EVal (XCol c)) | SPAvg c | SPCount (Some c) => option_map Some (resolve c fs)
+  | SPCount None => Some None
+  | _ => None
+  end.
+
+(* grouping values = values of the plain select-list columns, in select-list order: of a row
+   of the input (through the columns the items name) and of a row of the output *)
+Definition key_of_base (sl : list derivedcol) (fs : list field) (rw : row) : list value :=
+  flat_map (fun d => match dc_prim d with
+                     | SPExpr (EVal (XCol c)) =>
+                         match resolve c fs with Some i => [nth i rw VNull] | None => [] end
+                     | _ => []
+                     end) sl.
+
+Fixpoint key_of_out (sl : list derivedcol) (o : row) : list value :=
+  match sl, o with
+  | d :: sl', v :: o' => if is_plain d then v :: key_of_out sl' o' else key_of_out sl' o'
+  | _, _ => []
+  end.
+
+Definition key_eqb : list value -> list value -> bool := list_eqb value_eqb.
+
+Definition int_of (v : value) : Z := match v with VInt z => z | _ => 0%Z end.
+
+(* a is a nearest integer to s / n (either neighbour on an exact tie); 0 for an empty group *)
+Definition avg_ok (s n a : Z) : bool :=
+  if (n =? 0)%Z then (a =? 0)%Z else (2 * Z.abs (n * a - s) <=? n)%Z.
+
+Definition cell_ok (d : derivedcol) (fs : list field) (grp : list row) (v : value) : bool :=
+  match dc_prim d with
+  | SPExpr (EVal (XCol c)) =>
+      match resolve c fs, grp with
+      | Some i, g :: _ => value_eqb v (nth i g VNull)
+      | _, _ => false
+      end
+  | SPCount None => value_eqb v (VInt (Z.of_nat (List.length grp)))
+  | SPCount (Some c) =>
+      match resolve c fs with
+      | Some i => value_eqb v (VInt (Z.of_nat (List.length
+                     (filter (fun g => negb (value_eqb (nth i g VNull) VNull)) grp))))
+      | None => false
+      end
+  | SPAvg c =>
+      match resolve c fs, v with
+      | Some i, VInt a =>
+          avg_ok (fold_right Z.add 0%Z (map (fun g => int_of (nth i g VNull)) grp))
+                 (Z.of_nat (List.length grp)) a
+      | _, _ => false
+      end
+  | _ => false
+  end.
+
+Fixpoint cells_ok (sl : list derivedcol) (fs : list field) (grp : list row) (o : row) : bool :=
+  match sl, o with
+  | [], [] => true
+  | d :: sl', v :: o' => cell_ok d fs grp v && cells_ok sl' fs grp o'
+  | _, _ => false
+  end.
+
+Definition group_of (sl : list derivedcol) (fs : list field) (base : list row) (k : list value) : list row :=
+  filter (fun rw => key_eqb (key_of_base sl fs rw) k) base.
+
+(* AVG arguments are integers *)
+Definition avg_args_int (sl : list derivedcol) (fs : list field) (base : list row) : bool :=
+  forallb (fun d => match dc_prim d with
+                    | SPAvg c => match resolve c fs with
+                                 | Some i => forallb (fun rw => match nth i rw VNull with VInt _ => true | _ => false end) base
+                                 | None => false
+                                 end
+                    | _ => true
+                    end) sl.
+
+Definition agg_typed (sl : list derivedcol) (gb : list colref) (fs : list field) (base : list row) : bool :=
+  agg_shape sl gb && forallb (fun d => is_some (item_col d fs)) sl && avg_args_int sl fs base
+  && forallb (fun rw => Nat.eqb (List.length rw) (List.length fs)) base.
+
+Fixpoint nodup_keys (ks : list (list value)) : bool :=
+  match ks with
+  | [] => true
+  | k :: r => negb (existsb (key_eqb k) r) && nodup_keys r
+  end.
+
+(* out is an acceptable aggregate result for `base` (rows after FROM / WHERE):
+   without GROUP BY exactly one row, computed over all of base (all zeros when base is empty);
+   with GROUP BY the rows carry pairwise different grouping values, the grouping values that
+   occur in out are exactly those that occur in base, and every row is computed over the rows
+   of base that have its grouping values *)
+Definition AggSpec (sl : list derivedcol) (gb : list colref) (fs : list field)
+           (base out : list row) : Prop :=
+  match gb with
+  | [] => exists o, out = [o] /\ cells_ok sl fs base o = true
+  | _ =>
+      NoDup (map (key_of_out sl) out) /\
+      (forall k, In k (map (key_of_out sl) out) <-> In k (map (key_of_base sl fs) base)) /\
+      (forall o, In o out -> cells_ok sl fs (group_of sl fs base (key_of_out sl o)) o = true)
+  end.
+
+Definition check_agg (sl : list derivedcol) (gb : list colref) (fs : list field)
+           (base out : list row) : bool :=
+  match gb with
+  | [] => match out with [o] => cells_ok sl fs base o | _ => false end
+  | _ =>
+      nodup_keys (map (key_of_out sl) out)
+      && forallb (fun o => existsb (fun rw => key_eqb (key_of_out sl o) (key_of_base sl fs rw)) base) out
+      && forallb (fun rw => existsb (fun o => key_eqb (key_of_out sl o) (key_of_base sl fs rw)) out) base
+      && forallb (fun o => cells_ok sl fs (group_of sl fs base (key_of_out sl o)) o) out
+  end.
+
+(* the same, but an AVG cell of a group of three or more rows is not looked at (used to
+   classify the known running-average finding) *)
+Definition cell_ok_lenient (d : derivedcol) (fs : list field) (grp : list row) (v : value) : bool :=
+  match dc_prim d with
+  | SPAvg _ => (3 <=? List.length grp)%nat && match v with VInt _ => true | _ => false end || cell_ok d fs grp v
+  | _ => cell_ok d fs grp v
+  end.
+Fixpoint cells_ok_lenient (sl : list derivedcol) (fs : list field) (grp : list row) (o : row) : bool :=
+  match sl, o with
+  | [], [] => true
+  | d :: sl', v :: o' => cell_ok_lenient d fs grp v && cells_ok_lenient sl' fs grp o'
+  | _, _ => false
+  end.
+Definition check_agg_lenient (sl : list derivedcol) (gb : list colref) (fs : list field)
+           (base out : list row) : bool :=
+  match gb with
+  | [] => match out with [o] => cells_ok_lenient sl fs base o | _ => false end
+  | _ =>
+      nodup_keys (map (key_of_out sl) out)
+      && forallb (fun o => existsb (fun rw => key_eqb (key_of_out sl o) (key_of_base sl fs rw)) base) out
+      && forallb (fun rw => existsb (fun o => key_eqb (key_of_out sl o) (key_of_base sl fs rw)) out) base
+      && forallb (fun o => cells_ok_lenient sl fs (group_of sl fs base (key_of_out sl o)) o) out
+  end.
+
+(* rows an aggregate query works on: FROM (any join tree) then WHERE, as a multiset *)
+Definition agg_input (q : select_stmt) (d : db) : option (list field * list row) :=
+  match sel_from q with
+  | [j] => obind (join_sem d j) (fun '(fs, rows) =>
+           obind (sem_filter (sel_where q) fs rows) (fun kept => Some (fs, kept)))
+  | _ => None
+  end.
